@@ -39,25 +39,39 @@ GROUPS = ["g", "h", "k"]
 
 
 # ------------------------------------------------------------------ generation
-def gen_items(rng, depth, n=None, top=False):
+def gen_items(rng, depth, n=None, sure=None):
+    """`sure`: names certainly defined (under the current group path) whenever this sequence is
+    effective; most modifications refer to those, so that few programs end in
+    'modifying undefined node'."""
     if n is None:
         n = rng.choice([0, 1, 1, 2, 2, 3])
-    return [gen_item(rng, depth) for _ in range(n)]
+    sure = set() if sure is None else set(sure)
+    out = []
+    for _ in range(n):
+        out.append(gen_item(rng, depth, sure))
+    return out
 
 
 def gen_extra(rng):
     return rng.choice([0, 0, 0, 1, 1, 2])
 
 
-def gen_item(rng, depth):
+def gen_item(rng, depth, sure):
     r = rng.random()
     if depth <= 0 or r < 0.38:
-        return ["n", rng.choice(NAMES), rng.random() < 0.3, rng.randint(0, 9)]
+        q = rng.random()
+        if q < 0.3 and sure:
+            return ["n", rng.choice(sorted(sure)), True, rng.randint(0, 9)]
+        if q > 0.985:
+            return ["n", rng.choice(NAMES), True, rng.randint(0, 9)]
+        name = rng.choice(NAMES)
+        sure.add(name)
+        return ["n", name, False, rng.randint(0, 9)]
     if r < 0.52:
         return ["g", rng.choice(GROUPS), gen_extra(rng), gen_items(rng, depth - 1)]
     ncl = rng.choice([1, 1, 2, 2, 3, 4])
-    cl = [[rng.random() < 0.45, gen_extra(rng), gen_items(rng, depth - 1)] for _ in range(ncl)]
-    els = [gen_extra(rng), gen_items(rng, depth - 1)] if rng.random() < 0.5 else None
+    cl = [[rng.random() < 0.45, gen_extra(rng), gen_items(rng, depth - 1, sure=sure)] for _ in range(ncl)]
+    els = [gen_extra(rng), gen_items(rng, depth - 1, sure=sure)] if rng.random() < 0.5 else None
     return ["b", cl, els, rng.random() < 0.35]
 
 
@@ -245,22 +259,20 @@ def judge_ast(ctx, items, r, deco, rng_for_deco, tag):
     if imp == "err":
         ctx.count("ast.impl_err")
     if imp != spec:
-        if len([v for v in ctx.violations if v["signature"].startswith("ast:")]) < 3:
-            small = shrink_ast(ctx, items) if deco is None else items
-            res = eval_ast(ctx, small) if deco is None else None
+        pre = classify(imp, spec)
+        seen = ctx.extra.setdefault("_shrunk", {})
+        small, imp2, text2, spec2 = items, imp, text, spec
+        if deco is None and seen.get(pre, 0) < 2:
+            seen[pre] = seen.get(pre, 0) + 1
+            cand = shrink_ast(ctx, items)
+            res = eval_ast(ctx, cand)
             if res and res[1] != res[0]["spec"]:
-                rr, imp2, _ = res
-                text2, spec2 = to_text(rr["lines"]), rr["spec"]
-            else:
-                small, imp2, text2, spec2 = items, imp, text, spec
-            ctx.violation(classify(imp2, spec2),
-                          "program\n    %s\n  real parser gives %s, the selected clauses give %s" %
-                          (text2.replace("\n", "\n    "), imp2, spec2),
-                          {"stream": "ast", "items": small, "deco": deco if small is items else None,
-                           "text": text2, "impl": imp2, "spec": spec2})
-        else:
-            ctx.violation(classify(imp, spec), "see replay", {"stream": "ast", "items": items, "deco": deco,
-                                                              "text": text, "impl": imp, "spec": spec})
+                small, imp2, text2, spec2 = cand, res[1], to_text(res[0]["lines"]), res[0]["spec"]
+        ctx.violation(classify(imp2, spec2),
+                      "program\n    %s\n  real parser gives %s, the selected clauses give %s" %
+                      (text2.replace("\n", "\n    "), imp2, spec2),
+                      {"stream": "ast", "items": small, "deco": deco if small is items else None,
+                       "text": text2, "impl": imp2, "spec": spec2})
     if imp != model:
         ctx.disagreement("ast", {"items": items, "deco": deco, "text": text}, "impl %s model %s" % (imp, model))
     elif deco is None and imp != "err" and strip_state(st) != strip_state(r["state"]):
@@ -408,8 +420,9 @@ def load_corpus():
 def correspond(ctx: Ctx):
     thorough = ctx.tier == "thorough"
     c_items, c_lines = load_corpus()
-    ast_stream(ctx, 2500 if thorough else 260, 6 if thorough else 5, 1200 if thorough else 110, c_items)
-    lines_stream(ctx, 12000 if thorough else 1500, c_lines)
+    ast_stream(ctx, 3000 if thorough else 400, 6 if thorough else 5, 1500 if thorough else 160, c_items)
+    lines_stream(ctx, 15000 if thorough else 2000, c_lines)
+    ctx.extra.pop("_shrunk", None)
 
 
 def search(ctx: Ctx):
